@@ -248,7 +248,12 @@ func (vc *VC) rangeNext(x *ssa.Next, st *State) {
 
 func (vc *VC) makeClosure(x *ssa.MakeClosure, st *State) {
 	loc := vc.alloc(st)
-	vc.defVal(x, loc)
+	tv := vc.defVal(x, loc)
+	// which function a closure value stands for (fnis(f, "name") in contracts)
+	if fn, ok := x.Fn.(*ssa.Function); ok {
+		vc.heapKeySort("#fnid", types.Typ[types.Int])
+		vc.heapWrite(st, "#fnid", types.Typ[types.Int], tv.S, vc.ar.ix(int64(vc.prog.funcID(fn))))
+	}
 }
 
 func (vc *VC) makeChan(x *ssa.MakeChan, st *State) {
@@ -325,6 +330,26 @@ func (vc *VC) selectInstr(x *ssa.Select, st *State) {
 func (vc *VC) goInstr(x *ssa.Go, st *State) {
 	vc.assumeNote("goroutines spawned by a function are not followed; their effects on shared state are outside sequential contracts")
 	vc.goHook(x, st)
+	// the spawned function starts in (a successor of) this state: its preconditions are owed here
+	c := x.Common()
+	if _, ok := c.Value.(*ssa.Builtin); ok || c.IsInvoke() {
+		return
+	}
+	key, fn, _ := vc.calleeKey(c)
+	fc := vc.lookupContract(key)
+	if fc == nil && fn != nil {
+		fc = vc.lookupContract(fn.String())
+	}
+	if fc == nil || len(fc.Requires) == 0 {
+		return
+	}
+	var args []TV
+	for _, a := range c.Args {
+		args = append(args, vc.val(a))
+	}
+	vc.preOnly = true
+	vc.applyContract(fc, fn, c, args, nil, st, x.Pos())
+	vc.preOnly = false
 }
 
 func (vc *VC) deferInstr(x *ssa.Defer, st *State) {
